@@ -355,6 +355,37 @@ def tr_full_data(fn):
             "  flat_map (fun p1 => map (fun p2 => (p1, p2, map (fun S : mx K => S (idx p1) (idx p2)) Ss)) pins) pins.\n")
 
 
+S2PD_BODY = ["a = [pin.name for pin in self.pin_dic]",
+             "ind = list(self.pin_dic.values())",
+             "indsort = np.argsort(a)",
+             "a = [a[i] for i in indsort]",
+             "indsort = np.array(ind)[indsort]",
+             "S = self.create_S()",
+             "I, J = np.meshgrid(indsort, indsort, indexing='ij')",
+             "S = S[0, I, J] if len(np.shape(S)) == 3 else S[I, J]",
+             "S = func(S) if func is not None else S",
+             "data = pd.DataFrame(data=S, index=a, columns=a)",
+             "return data"]
+
+
+def tr_s2pd(fn):
+    """S2PD: statement by statement (each line below is the reading of the source line of the same number); `order` is
+    np.argsort of the names (positions in the pin dictionary), the labels stand for their pins"""
+    t = [ast.unparse(x).replace("(I, J) =", "I, J =") for x in strip_doc(fn.body)]
+    if t != S2PD_BODY:
+        k = next((i for i, (x, y) in enumerate(zip(t, S2PD_BODY)) if x != y), min(len(t), len(S2PD_BODY)))
+        raise Unsupported("Model.S2PD changed at statement %d: %s" % (k + 1, (t[k] if k < len(t) else "<missing>")[:200]))
+    return ("Definition s2pd_src (m : smodel K) (order : list nat) : list spin * list (list K) :=\n"
+            "  let a := sm_pins m in\n"
+            "  let ind := map (sm_idx m) (sm_pins m) in\n"
+            "  let indsort := order in\n"
+            "  let a := map (fun i => nth i a dpin) indsort in\n"
+            "  let indsort := map (fun i => nth i ind 0%nat) indsort in\n"
+            "  let S := sm_S m in\n"
+            "  let S := map (fun I => map (fun J => S I J) indsort) indsort in\n"
+            "  (a, S).\n")
+
+
 def translate(repo: str) -> str:
     p = os.path.join(repo, "lekkersim", "model.py")
     with open(p) as fh:
@@ -369,7 +400,7 @@ def translate(repo: str) -> str:
     t = [ast.unparse(x) for x in strip_doc(find_fn(tree, "Model", "_to_pin").body)]
     if t != ["return pin if isinstance(pin, Pin) else self.pin[pin]"]:      # self.pin: the name table tied by translate_names
         raise Unsupported("Model._to_pin changed: " + " ; ".join(t)[:200])
-    no_override(tree, "SolvedModel", ["get_A", "get_T", "get_PH", "get_output", "_to_pin"])
+    no_override(tree, "SolvedModel", ["get_A", "get_T", "get_PH", "get_output", "_to_pin", "S2PD"])
     # what `ns` and the solved parameters ARE in the emitted terms: the sweep length of the matrix, a private copy of the values
     init = [ast.unparse(x) for x in strip_doc(find_fn(tree, "SolvedModel", "__init__").body)]
     for want in ("self.solved_params = deepcopy(param_dic)", "self.ns = np.shape(Smatrix)[0]"):
@@ -382,6 +413,7 @@ def translate(repo: str) -> str:
     out.append(tr_get_full_output(find_fn(tree, "SolvedModel", "get_full_output")))
     out.append(tr_get_data(find_fn(tree, "SolvedModel", "get_data")))
     out.append(tr_full_data(find_fn(tree, "SolvedModel", "get_full_data")))
+    out.append(tr_s2pd(find_fn(tree, "Model", "S2PD")))
     out.append(PARAM_SRC)
     return "\n".join(out) + "\n"
 
